@@ -5,11 +5,13 @@ package keepclient
 import (
 	"bytes"
 	"crypto/md5"
+	"encoding/json"
 	"fmt"
 	"io"
 	"io/ioutil"
 	"net/http"
 	"os"
+	"sort"
 	"strings"
 	"sync"
 	"testing"
@@ -55,6 +57,115 @@ func c12UUID(r *vRand, kind int, cluster string, shared []string) string {
 	}
 }
 
+// one item of a keep_services list (discovery stratum)
+type c12Item struct {
+	UUID string `json:"uuid"`
+	Host string `json:"service_host"`
+	Port int    `json:"service_port"`
+	SSL  bool   `json:"service_ssl_flag"`
+	Type string `json:"service_type"`
+	RO   bool   `json:"read_only"`
+}
+
+func c12JSON(l []c12Item) string {
+	if l == nil {
+		l = []c12Item{}
+	}
+	j, _ := json.Marshal(map[string]interface{}{"items": l})
+	return string(j)
+}
+
+func c12ListTerm(l []c12Item) string {
+	xs := make([]string, len(l))
+	for i, s := range l {
+		xs[i] = fmt.Sprintf("D %s %s %d%%N %s %s %s", gStr(s.UUID), gStr(s.Host), s.Port, gBool(s.SSL), gStr(s.Type), gBool(s.RO))
+	}
+	return gList(xs)
+}
+
+// an earlier list the client held before the final one: a variation of it
+func c12Earlier(r *vRand, final []c12Item, k int) ([]c12Item, string) {
+	l := append([]c12Item(nil), final...)
+	kind := r.Pick("flip-ro", "flip-ro", "all-writable", "all-readonly", "remove", "add", "move-url", "same", "other")
+	switch kind {
+	case "flip-ro":
+		any := false
+		for i := range l {
+			if r.Chance(1, 2) {
+				l[i].RO = !l[i].RO
+				any = true
+			}
+		}
+		if !any {
+			i := r.Intn(len(l))
+			l[i].RO = !l[i].RO
+		}
+	case "all-writable":
+		for i := range l {
+			l[i].RO = false
+		}
+	case "all-readonly":
+		for i := range l {
+			l[i].RO = true
+		}
+	case "remove":
+		if len(l) > 1 {
+			i := r.Intn(len(l))
+			l = append(l[:i:i], l[i+1:]...)
+		}
+	case "add":
+		l = append(l, c12Item{UUID: c12UUID(r, 0, "zzzzz", nil), Host: fmt.Sprintf("old%d.zzzzz.example", k), Port: 25107, Type: "disk", RO: r.Bool()})
+	case "move-url":
+		i := r.Intn(len(l))
+		l[i].Host = fmt.Sprintf("moved%d.zzzzz.example", k)
+	case "other":
+		l = nil
+		for i := 0; i < 1+r.Intn(3); i++ {
+			l = append(l, c12Item{UUID: c12UUID(r, 0, "wwwww", nil), Host: fmt.Sprintf("other%d-%d.example", k, i), Port: 25107, Type: "disk", RO: r.Chance(1, 3)})
+		}
+	}
+	return l, kind
+}
+
+// The API side of service discovery without sockets: an http.RoundTripper that answers
+// GET /arvados/v1/keep_services/accessible with the list currently set.  One ApiServer name for the whole
+// test process, so that keepclient's per-API-server cache entry (and its poll goroutine) is shared.
+type c12APITransport struct {
+	mtx   sync.Mutex
+	body  string
+	calls int
+}
+
+func (a *c12APITransport) set(body string) {
+	a.mtx.Lock()
+	a.body = body
+	a.mtx.Unlock()
+}
+
+func (a *c12APITransport) RoundTrip(req *http.Request) (*http.Response, error) {
+	a.mtx.Lock()
+	b := a.body
+	a.calls++
+	a.mtx.Unlock()
+	code := 200
+	if !strings.HasSuffix(req.URL.Path, "/keep_services/accessible") {
+		code, b = 404, "{}"
+	}
+	return &http.Response{StatusCode: code, Status: fmt.Sprint(code), Header: http.Header{"Content-Type": {"application/json"}},
+		Body: ioutil.NopCloser(strings.NewReader(b)), Request: req}, nil
+}
+
+var c12API = &c12APITransport{}
+var c12Arv = &arvadosclient.ArvadosClient{ApiServer: "verif-c12-api.invalid", ApiToken: "tok", Client: &http.Client{Transport: c12API}}
+
+func c12Copy(m map[string]string) map[string]string {
+	o := map[string]string{}
+	for k, v := range m {
+		o[k] = v
+	}
+	return o
+}
+
 func TestVerifC12(t *testing.T) {
 	seed := vSeed()
 	n := vEnvInt("VERIF_N", 200)
@@ -81,6 +192,12 @@ func TestVerifC12(t *testing.T) {
 		writable := map[string]string{}
 		balroots := map[string]string{}
 		tieMode := r.Chance(1, 10)
+		// discovery stratum: the roots come from keep_services lists given to LoadKeepServicesFromJSON (one or more,
+		// the last one in force) instead of SetServiceRoots; a quarter of the listed services is read-only
+		disc := r.Chance(1, 2)
+		var final []c12Item
+		var lists [][]c12Item
+		var discTags []string
 		for len(local) < nsvc {
 			kind := 0
 			switch x := r.Intn(20); {
@@ -96,10 +213,13 @@ func TestVerifC12(t *testing.T) {
 				continue
 			}
 			root := fmt.Sprintf("http://keep%d.zzzzz.example:25107", len(local))
+			final = append(final, c12Item{UUID: u, Host: fmt.Sprintf("keep%d.zzzzz.example", len(local)), Port: 25107, Type: r.Pick("disk", "disk", "proxy")})
 			local[u] = root
 			balroots[u] = u
 			if r.Intn(4) != 0 {
 				writable[u] = root
+			} else {
+				final[len(final)-1].RO = true
 			}
 		}
 		gw := map[string]string{}
@@ -109,11 +229,106 @@ func TestVerifC12(t *testing.T) {
 			gw[u] = fmt.Sprintf("http://gw%d.yyyyy.example:25107", k)
 			gwUUIDs = append(gwUUIDs, u)
 		}
+		stub := &c12Stub{code: 404}
+		kc := &KeepClient{Arvados: &arvadosclient.ArvadosClient{ApiToken: "tok"}, Want_replicas: 1, Retries: 0, HTTPClient: stub, BlockCache: &BlockCache{}}
+		if disc {
+			if nsvc > 1 && r.Chance(1, 10) {
+				// an item repeating an earlier item's URL under another uuid: skipped by loadKeepServers
+				d := final[r.Intn(len(final))]
+				d.UUID = c12UUID(r, 0, "zzzzz", shared)
+				d.RO = r.Bool()
+				final = append(final, d)
+				discTags = append(discTags, "duplicate-url")
+			}
+			ne := []int{0, 0, 1, 1, 1, 2}[r.Intn(6)]
+			for k := 0; k < ne; k++ {
+				l, kind := c12Earlier(r, final, k)
+				lists = append(lists, l)
+				discTags = append(discTags, "earlier-list="+kind)
+			}
+			lists = append(lists, final)
+			discTags = append(discTags, "discovery", fmt.Sprintf("lists-loaded=%d", len(lists)))
+			// half of the discovery cases go through the API path: discoverServices -> cached poller ->
+			// loadKeepServers on every operation, a new list being picked up after RefreshServiceDiscovery
+			viaAPI := r.Chance(1, 2)
+			if viaAPI {
+				kc.Arvados = c12Arv
+				discTags = append(discTags, "discovery-via-api-poll")
+			} else {
+				discTags = append(discTags, "discovery-via-json")
+			}
+			for k, l := range lists {
+				if viaAPI {
+					c12API.set(c12JSON(l))
+					kc.RefreshServiceDiscovery() // no-op before the first discovery of this process
+					if err := kc.discoverServices(); err != nil {
+						t.Fatalf("discoverServices: %v", err)
+					}
+				} else if err := kc.LoadKeepServicesFromJSON(c12JSON(l)); err != nil {
+					t.Fatalf("LoadKeepServicesFromJSON: %v", err)
+				}
+				if k < len(lists)-1 {
+					// the client is used between two lists: a read that misses everywhere
+					kc.Get(fmt.Sprintf("%x+3", md5.Sum([]byte(fmt.Sprintf("warm-%d-%d", i, k)))))
+				}
+			}
+			stub.mtx.Lock()
+			stub.reqs = nil
+			stub.mtx.Unlock()
+			// what the client uses from now on (read back through the package API)
+			local, writable, gw = c12Copy(kc.LocalRoots()), c12Copy(kc.WritableLocalRoots()), c12Copy(kc.GatewayRoots())
+			balroots = map[string]string{}
+			for u := range local {
+				balroots[u] = u
+			}
+			gwUUIDs = nil
+			for u := range gw {
+				gwUUIDs = append(gwUUIDs, u)
+			}
+			sort.Strings(gwUUIDs)
+			if len(local) == 0 {
+				t.Fatalf("case %d: no local roots after discovery", i)
+			}
+		} else {
+			discTags = append(discTags, "set-service-roots")
+			if r.Chance(1, 3) {
+				// as after discovery: every local service is also a gateway root
+				for u, root := range local {
+					gw[u] = root
+					gwUUIDs = append(gwUUIDs, u)
+				}
+				sort.Strings(gwUUIDs)
+				discTags = append(discTags, "locals-are-gateways")
+			}
+		}
+		// 27-character uuids of local services: candidates for +K@ hints that name a listed service
+		var localHintable, roHintable []string
+		for u := range local {
+			if len(u) == 27 {
+				localHintable = append(localHintable, u)
+				if _, w := writable[u]; !w {
+					roHintable = append(roHintable, u)
+				}
+			}
+		}
+		sort.Strings(localHintable)
+		sort.Strings(roHintable)
 		hash := fmt.Sprintf("%x", md5.Sum([]byte(fmt.Sprintf("blk-%d-%d", seed, i))))
 		loc := hash
 		nhints := 0
+		hintLocal := 0
 		for k := 0; k < r.Intn(5); k++ {
-			switch r.Intn(8) {
+			switch r.Intn(11) {
+			case 8, 9:
+				if len(localHintable) > 0 {
+					loc += "+K@" + localHintable[r.Intn(len(localHintable))]
+					hintLocal++
+				}
+			case 10:
+				if len(roHintable) > 0 {
+					loc += "+K@" + roHintable[r.Intn(len(roHintable))]
+					hintLocal++
+				}
 			case 0:
 				loc += fmt.Sprintf("+%d", r.Intn(100000))
 			case 1:
@@ -162,9 +377,9 @@ func TestVerifC12(t *testing.T) {
 		oBal := NewRootSorter(balroots, hash).GetSortedRoots()
 		oSub := NewRootSorter(sub, hash).GetSortedRoots()
 
-		stub := &c12Stub{code: 404}
-		kc := &KeepClient{Arvados: &arvadosclient.ArvadosClient{ApiToken: "tok"}, Want_replicas: 1, Retries: 0, HTTPClient: stub, BlockCache: &BlockCache{}}
-		kc.SetServiceRoots(local, writable, gw)
+		if !disc {
+			kc.SetServiceRoots(local, writable, gw)
+		}
 		oGet := kc.getSortedRoots(loc)
 		_, _, _, err := kc.Get(loc)
 		if err == nil {
@@ -190,12 +405,17 @@ func TestVerifC12(t *testing.T) {
 		for _, u := range gwUUIDs {
 			gws = append(gws, "S "+gStr(u)+" "+gStr(gw[u]))
 		}
-		term := fmt.Sprintf("{| c_hash := %s; c_local := %s; c_writable := %s; c_keep := %s; c_gw := %s; c_loc := %s;\n   o_sorted := %s; o_bal := %s; o_sub := %s; o_get := %s; o_getreq := %s; o_putreq := %s |}",
-			gStr(hash), gList(svcs), gBools(wr), gBools(keep), gList(gws), gStr(loc),
+		lts := []string{}
+		for _, l := range lists {
+			lts = append(lts, c12ListTerm(l))
+		}
+		term := fmt.Sprintf("{| c_hash := %s; c_lists := %s; c_local := %s; c_writable := %s; c_keep := %s; c_gw := %s; c_loc := %s;\n   o_sorted := %s; o_bal := %s; o_sub := %s; o_get := %s; o_getreq := %s; o_putreq := %s |}",
+			gStr(hash), gList(lts), gList(svcs), gBools(wr), gBools(keep), gList(gws), gStr(loc),
 			gStrs(oSorted), gStrs(oBal), gStrs(oSub), gStrs(oGet), gStrs(oGetReq), gStrs(oPutReq))
-		desc := map[string]interface{}{"index": i, "hash": hash, "local": local, "writable": writable, "gateways": gw, "locator": loc,
+		desc := map[string]interface{}{"index": i, "hash": hash, "discovery_lists": lists, "local": local, "writable": writable, "gateways": gw, "locator": loc,
 			"sorted": oSorted, "balancer": oBal, "subset": oSub, "getSortedRoots": oGet, "get_requests": oGetReq, "put_requests": oPutReq}
-		tags := []string{fmt.Sprintf("services=%d", bucket(len(uu))), fmt.Sprintf("hints=%d", nhints)}
+		tags := []string{fmt.Sprintf("services=%d", bucket(len(uu))), fmt.Sprintf("hints=%d", nhints), fmt.Sprintf("hints-naming-local-service=%d", hintLocal)}
+		tags = append(tags, discTags...)
 		if tieMode {
 			tags = append(tags, "shared-suffix")
 		}
